@@ -14,7 +14,7 @@ import (
 
 var c16Chunks = []string{
 	"a", "B", "0", "-", "_", " ", "'", `"`, `\`, "/", ".", "[", "]", "(", ")", "*", "$", "@", "?", ",", ":", "=", "!", "<", "~",
-	"\x00", "\x1f", "\x7f", "\n", "é", "￿", "\U0001F600",
+	"\x00", "\x1f", "\x7f", "\n", "\u00e9", "\uffff", "\U0001F600",
 	`\n`, "\\u0041", `\ud83d`, `\ude00`, // escape-like texts taken literally as key characters
 	"&", "|", ">", "#", "%",
 }
